@@ -32,9 +32,16 @@ def _data_key(data):
 
 def box_key(b):
     """Structural key of a box: class kind, name, types, dagger flag, payload."""
+    if not hasattr(b, "name"):  # a diagram used as a box (foliation slices)
+        return (type(b).__name__, "<diagram>", ty_key(b.dom), ty_key(b.cod), False,
+                repr(diagram_key(b)))
     return (type(b).__name__, str(b.name) if not isinstance(b.name, str) else b.name,
             ty_key(b.dom), ty_key(b.cod), bool(getattr(b, "is_dagger", False)),
             _data_key(getattr(b, "data", None)))
+
+
+def bname(b):
+    return str(getattr(b, "name", "<diagram>"))
 
 
 def diagram_key(d):
@@ -71,17 +78,17 @@ def scan(d, check_layers=True):
             errs.append("unreadable layers: %r" % (e,))
             lay = None
     for i, (b, off) in enumerate(zip(boxes, offsets)):
-        if not isinstance(off, int) or isinstance(off, bool):
+        if not isinstance(off, int):  # bool is an int in Python: True == 1 is a legal offset
             errs.append("offset[%d]=%r is not an int" % (i, off))
             return errs
         bd, bc = list(ty_key(b.dom)), list(ty_key(b.cod))
         if off < 0 or off + len(bd) > len(cur):
             errs.append("box %d (%s) at offset %d does not fit in %d wires"
-                        % (i, b.name, off, len(cur)))
+                        % (i, bname(b), off, len(cur)))
             return errs
         if cur[off:off + len(bd)] != bd:
             errs.append("box %d (%s) dom %r not found at offset %d of %r"
-                        % (i, b.name, tuple(bd), off, tuple(cur)))
+                        % (i, bname(b), tuple(bd), off, tuple(cur)))
             return errs
         if lay is not None:
             try:
